@@ -175,11 +175,23 @@ def run_comp(case):
         if gs0 is not None:
             c0 = c0.replace(rng=gs0.rng, params=gs0.params, state=gs0.state)
         masked = sum(1 for sn, sl in C.timings_np(G).slots.items() for p in range(N) if not sl.run[e, p])
-        for drive in ("rollout", "step"):
+        for drive in ("rollout", "step", "late"):
             W.trace_clear()
             expected = Counter()
             overridden = []
-            if drive == "rollout":
+            if drive == "late":
+                # late start: init(starting_step=s0) -- every executed tick must still carry its own sequence number
+                if N < 3:
+                    continue
+                s0 = rnd.randint(1, N - 1)
+                cl = G.init(jax.random.PRNGKey(case["spec_seed"]), starting_eps=e, starting_step=s0)
+                if gs0 is not None:
+                    cl = cl.replace(rng=gs0.rng, params=gs0.params, state=gs0.state)
+                out = jax.jit(lambda g: G.rollout(g, max_steps=N - s0))(cl)
+                jax.block_until_ready(out)
+                parts = range(s0, N)
+                sup_ticks = set(range(s0, N))
+            elif drive == "rollout":
                 out = roll(c0)
                 jax.block_until_ready(out)
                 parts = range(N)
@@ -216,7 +228,7 @@ def run_comp(case):
             counters["ticks_expected"] += sum(1 for v in expected.values() if v)
             counters["masked_slots"] += masked
             counters["overridden_ticks"] += len(overridden)
-            nontriv = masked > 0 or bool(overridden)
+            nontriv = masked > 0 or bool(overridden) or drive == "late"
             key = f"{dg}/{mode}/{prune}/{e}/{drive}"
             if V:
                 items.append(dict(status="violated", key=key, nontrivial=nontriv, witness=dict(mechanism=V[0]["clause"], violations=V[:5], spec=spec, mode=mode,
